@@ -79,24 +79,144 @@ theorem toNatBE_stepPath (b : Bytes) (isRest : Bool) :
 theorem new_toInt_nonneg {b : Bytes} (h : 0 ≤ Bytes.toInt b) : new (Bytes.toInt b) = Bytes.toNatBE b := by
   rw [new_nonneg h, BytesAlg.toInt_nonneg_eq h]; simp
 
-/-- `bigint_from_bytes` is the big-endian value below four bytes (no `get_u32` involved). -/
-theorem bigintFromBytes_short {b : Bytes} (h : b.length < 4) : bigintFromBytes b = Bytes.toNatBE b := by
-  match b, h with
-  | [], _ => rfl
-  | [x], _ => simp [bigintFromBytes, groupSum, remSum, byteAt, Bytes.toNatBE]
-  | [x, y], _ => simp [bigintFromBytes, groupSum, remSum, byteAt, Bytes.toNatBE]; omega
-  | [x, y, z], _ => simp [bigintFromBytes, groupSum, remSum, byteAt, Bytes.toNatBE]; omega
-  | _ :: _ :: _ :: _ :: _, h => simp at h; omega
+-- ---------------------------------------------------------------------------------------
+-- `bigint_from_bytes` (unsigned) is the big-endian reading, for every length
+-- ---------------------------------------------------------------------------------------
 
-/-- canonical atoms with the top bit set keep their path up to three bytes. -/
-theorem new_canonical_short {b : Bytes} (hc : Bytes.canonical b = true) (hl : b.length < 4) :
+theorem foldl_shift (l : Bytes) (acc : Nat) :
+    l.foldl (fun a x => a * 256 + x.toNat) acc
+      = acc * 256 ^ l.length + l.foldl (fun a x => a * 256 + x.toNat) 0 := by
+  induction l generalizing acc with
+  | nil => simp
+  | cons x r ih =>
+    simp only [List.foldl_cons, List.length_cons]
+    rw [ih (acc * 256 + x.toNat), ih (0 * 256 + x.toNat), Nat.pow_succ]
+    grind
+
+theorem toNatBE_cons (x : UInt8) (t : Bytes) :
+    Bytes.toNatBE (x :: t) = x.toNat * 256 ^ t.length + Bytes.toNatBE t := by
+  unfold Bytes.toNatBE
+  rw [List.foldl_cons, foldl_shift]
+  simp
+
+theorem toNatBE_append (a b : Bytes) :
+    Bytes.toNatBE (a ++ b) = Bytes.toNatBE a * 256 ^ b.length + Bytes.toNatBE b := by
+  unfold Bytes.toNatBE
+  rw [List.foldl_append, foldl_shift]
+
+/-- one byte off the front of a suffix. -/
+theorem toNatBE_drop_step (l : Bytes) (i : Nat) (h : i < l.length) :
+    Bytes.toNatBE (l.drop i) = byteAt l i * 256 ^ (l.length - i - 1) + Bytes.toNatBE (l.drop (i + 1)) := by
+  rw [List.drop_eq_getElem_cons h, toNatBE_cons]
+  have : byteAt l i = l[i].toNat := by
+    unfold byteAt
+    simp [List.getD_eq_getElem?_getD, h]
+  rw [this, List.length_drop]
+  congr 2
+
+theorem pow256_four (k : Nat) : 256 ^ (4 * k) = 2 ^ (32 * k) := by
+  rw [show (256 : Nat) = 2 ^ 8 by rfl, ← Nat.pow_mul]
+  congr 1
+  omega
+
+/-- the first loop of `bigint_from_bytes`: after `k` rounds the sum is the big-endian value of
+    the last `4·k` bytes (this is where `get_u32` has to be big-endian). -/
+theorem groupSum_eq (dv : Bytes) (rem len4 : Nat) (hl : dv.length = rem + 4 * len4) :
+    ∀ k, k ≤ len4 → groupSum dv rem len4 k = Bytes.toNatBE (dv.drop (rem + 4 * (len4 - k))) := by
+  intro k
+  induction k with
+  | zero =>
+    intro _
+    have : dv.drop (rem + 4 * (len4 - 0)) = [] := List.drop_eq_nil_of_le (by omega)
+    rw [this]; rfl
+  | succ k ih =>
+    intro hk
+    have hi : (len4 - k - 1) * 4 + rem = rem + 4 * (len4 - (k + 1)) := by omega
+    simp only [groupSum]
+    rw [ih (by omega), hi]
+    generalize hI : rem + 4 * (len4 - (k + 1)) = i
+    have hnext : rem + 4 * (len4 - k) = i + 1 + 1 + 1 + 1 := by omega
+    rw [hnext, toNatBE_drop_step dv i (by omega), toNatBE_drop_step dv (i + 1) (by omega),
+      toNatBE_drop_step dv (i + 1 + 1) (by omega), toNatBE_drop_step dv (i + 1 + 1 + 1) (by omega)]
+    have e0 : dv.length - i - 1 = 4 * k + 3 := by omega
+    have e1 : dv.length - (i + 1) - 1 = 4 * k + 2 := by omega
+    have e2 : dv.length - (i + 1 + 1) - 1 = 4 * k + 1 := by omega
+    have e3 : dv.length - (i + 1 + 1 + 1) - 1 = 4 * k := by omega
+    rw [e0, e1, e2, e3]
+    unfold getU32
+    have hX := pow256_four k
+    simp only [Nat.pow_succ, hX, Nat.add_assoc]
+    generalize (2 : Nat) ^ (32 * k) = X
+    grind
+
+/-- the second loop: the `k` last bytes of the `rem`-byte head, scaled by `order`. -/
+theorem remSum_eq (dv : Bytes) (rem order : Nat) (hl : rem ≤ dv.length) :
+    ∀ k, k ≤ rem → remSum dv rem order k = order * Bytes.toNatBE ((dv.take rem).drop (rem - k)) := by
+  intro k
+  induction k with
+  | zero =>
+    intro _
+    have : (dv.take rem).drop (rem - 0) = [] := List.drop_eq_nil_of_le (by simp; omega)
+    rw [this]; simp [remSum, Bytes.toNatBE]
+  | succ k ih =>
+    intro hk
+    simp only [remSum]
+    rw [ih (by omega)]
+    have hlen : (dv.take rem).length = rem := by simp; omega
+    have hb : byteAt dv (rem - k - 1) = byteAt (dv.take rem) (rem - k - 1) := by
+      unfold byteAt
+      simp only [List.getD_eq_getElem?_getD, List.getElem?_take]
+      rw [if_pos (by omega)]
+    have hs := toNatBE_drop_step (dv.take rem) (rem - (k + 1)) (by omega)
+    have h1 : rem - (k + 1) + 1 = rem - k := by omega
+    have h2 : (dv.take rem).length - (rem - (k + 1)) - 1 = k := by omega
+    have h3 : rem - k - 1 = rem - (k + 1) := by omega
+    rw [h1, h2] at hs
+    rw [hs, hb, h3, show (2 : Nat) ^ (8 * k) = 256 ^ k by
+      rw [show (256 : Nat) = 2 ^ 8 by rfl, ← Nat.pow_mul]]
+    grind
+
+/-- **`bigint_from_bytes(b, None)` is the unsigned big-endian value of `b`**, for every `b`
+    (all lengths; with the little-endian `get_u32` of before c2e6c4f this failed from four
+    bytes up: `0x80000000 ↦ 128`). -/
+theorem bigintFromBytes_eq (b : Bytes) : bigintFromBytes b = Bytes.toNatBE b := by
+  unfold bigintFromBytes
+  split
+  · rename_i h
+    have : b = [] := List.eq_nil_of_length_eq_zero h
+    subst this; rfl
+  · have hl : b.length = b.length % 4 + 4 * (b.length / 4) := by omega
+    rw [groupSum_eq b _ _ hl _ (Nat.le_refl _), remSum_eq b _ _ (Nat.mod_le _ _) _ (Nat.le_refl _)]
+    simp only [Nat.sub_self, Nat.mul_zero, Nat.add_zero, List.drop_zero]
+    conv => rhs; rw [← List.take_append_drop (b.length % 4) b, toNatBE_append]
+    rw [List.length_drop, ← pow256_four]
+    have : b.length - b.length % 4 = 4 * (b.length / 4) := by omega
+    rw [this, Nat.add_comm, Nat.mul_comm]
+
+/-- `bigint_from_bytes` is the big-endian value below four bytes (no `get_u32` involved). -/
+theorem bigintFromBytes_short {b : Bytes} (_h : b.length < 4) : bigintFromBytes b = Bytes.toNatBE b :=
+  bigintFromBytes_eq b
+
+/-- `NodePath::new` of a negative index: the unsigned reading of its minimal two's-complement
+    bytes (`bigint_to_bytes_clvm` then `bigint_from_bytes`). -/
+theorem new_neg {i : Int} (h : i < 0) : new i = Bytes.toNatBE (Bytes.ofIntClvm i) := by
+  unfold new
+  rw [if_pos h, bigintFromBytes_eq]
+
+/-- **every canonical atom keeps its path**: for a minimally encoded atom `b` of ANY length, top
+    bit set or not, `NodePath::new(number_from_u8(b))` is the unsigned value clvmr traverses. -/
+theorem new_canonical {b : Bytes} (hc : Bytes.canonical b = true) :
     new (Bytes.toInt b) = Bytes.toNatBE b := by
   by_cases h : 0 ≤ Bytes.toInt b
   · exact new_toInt_nonneg h
-  · unfold new
-    rw [if_pos (by omega)]
+  · rw [new_neg (by omega)]
     have : Bytes.ofIntClvm (Bytes.toInt b) = b := by
       simpa [Bytes.canonical] using hc
-    rw [this, bigintFromBytes_short hl]
+    rw [this]
+
+/-- canonical atoms with the top bit set keep their path up to three bytes (special case of
+    `new_canonical`, kept for its users). -/
+theorem new_canonical_short {b : Bytes} (hc : Bytes.canonical b = true) (_hl : b.length < 4) :
+    new (Bytes.toInt b) = Bytes.toNatBE b := new_canonical hc
 
 end NodePath
